@@ -148,13 +148,50 @@ def _emit_checks(ctx, rid, f, roles, node, st):
     return n
 
 
-def _r1_function(ctx, rid, f):
-    roles = Roles(ctx, f)
+def _local_record_list(f, recv) -> bool:
+    """Is the list `recv` (receiver of an `.append(<tuple>)`) a private record list of this function - only grown, measured and
+    iterated here, never returned, stored or handed to a call?  Then its tuples are not edges `(source, target, ...)`: what each
+    position means is fixed by the unpacking at the loop that consumes them, and role inference follows that unpacking."""
+    if not isinstance(recv, ast.Name):
+        return False
+    iterated = False
+    for x in walk_shallow(f.node):
+        if not (isinstance(x, ast.Name) and x.id == recv.id and isinstance(x.ctx, ast.Load)):
+            continue
+        p = parent(x)
+        if isinstance(p, ast.Attribute) and p.attr in ("append", "extend") and isinstance(parent(p), ast.Call) and parent(p).func is p:
+            continue
+        if isinstance(p, ast.Call) and call_name(p) == "len" and p.args == [x]:
+            continue
+        it = x
+        while isinstance(parent(it), ast.Call) and call_name(parent(it)) in ("enumerate", "zip", "reversed", "list", "tuple") \
+                and it in parent(it).args:
+            it = parent(it)
+        p = parent(it)
+        if (isinstance(p, (ast.For, ast.comprehension)) and p.iter is it):
+            iterated = True
+            continue
+        return False
+    return iterated
+
+
+def _r1_function(ctx, rid, f, roles=None, seen=None):
+    roles = roles or Roles(ctx, f)
+    seen = seen if seen is not None else set()
     cfg = ctx.cfg(f)
     n = 0
     nodes = sorted((x for x in walk_shallow(f.node) if hasattr(x, "lineno")), key=lambda x: (x.lineno, x.col_offset))
     for node in nodes:
         st = stmt_of(cfg, node)
+        # ---- sinks that moved into an extracted private helper: analyse the helper under the roles of this call's arguments ----
+        if isinstance(node, ast.Call):
+            hr = roles.helper_roles(node)
+            if hr is not None:
+                g, proles = hr
+                key = (g.qual, tuple(sorted((k, str(v)) for k, v in proles.items())))
+                if key not in seen and (g.module.rel, g.qualname) not in R1_FUNCS:
+                    seen.add(key)
+                    n += _r1_function(ctx, rid, g, Roles(ctx, g, proles, roles.depth + 1), seen)
         # ---- pair sinks: subscripts with two indices -------------------------------------------------
         if isinstance(node, ast.Subscript) and isinstance(node.slice, ast.Tuple) and len(node.slice.elts) == 2:
             base, flipped = _strip_T(node.value)
@@ -187,13 +224,18 @@ def _r1_function(ctx, rid, f):
                 continue
             if not (isinstance(ax, ast.Constant) and isinstance(ax.value, int)):
                 raise AnalysisError(f"{rid}: {f.qual}: squeeze axis `{norm(ax)}` is not a literal (unrecognised form)")
-            guards = [d for d in cfg.dominators(st) if isinstance(d, ast.If) and d is not st and any(contains(b, st) for b in d.body)
-                      and isinstance(d.test, ast.Compare) and len(d.test.ops) == 1 and isinstance(d.test.ops[0], ast.Eq)
-                      and any(isinstance(x, ast.Constant) and x.value == 1 for x in (d.test.left, d.test.comparators[0]))]
+            # the guard: a dominating test `<extent> == 1` that holds here (`!= 1` on the else side, early exits, swapped operands)
+            guards = []
+            for t, pol in R.path_literals(cfg, st, node):
+                if isinstance(t, ast.Compare) and len(t.ops) == 1 and isinstance(t.ops[0], (ast.Eq, ast.NotEq)) \
+                        and isinstance(t.ops[0], ast.Eq) == pol \
+                        and any(isinstance(x, ast.Constant) and x.value == 1 and x.value is not True for x in (t.left, t.comparators[0])):
+                    guards.append(t)
             if not guards:
                 raise AnalysisError(f"{rid}: {f.qual}: `{norm(node)}` is not guarded by an `<extent> == 1` test (unrecognised form)")
-            g = guards[0]
-            ext = g.test.comparators[0] if isinstance(g.test.left, ast.Constant) else g.test.left
+            typed = [t for t in guards if roles.atom(t.comparators[0] if isinstance(t.left, ast.Constant) else t.left) in (SRC, TGT, MIX)]
+            g = (typed or guards)[0]            # innermost test of a typed extent
+            ext = g.comparators[0] if isinstance(g.left, ast.Constant) else g.left
             er = roles.atom(ext)
             facts = {"guard": norm(g), "guard_role": show(er), "axis": ax.value}
             n += 1
@@ -209,16 +251,23 @@ def _r1_function(ctx, rid, f):
             else:
                 raise AnalysisError(f"{rid}: {f.qual}: cannot type the guard `{norm(g)}` of `{norm(node)}`")
         # ---- named slots ----------------------------------------------------------------------
-        if isinstance(node, ast.Assign) and len(node.targets) == 1:
-            t = node.targets[0]
-            slot = None
-            if isinstance(t, ast.Subscript) and isinstance(t.slice, ast.Constant) and isinstance(t.slice.value, str):
-                slot = t.slice.value
-            elif isinstance(t, ast.Attribute):
-                slot = t.attr
-            e = R.seed_of(slot)
-            if e in (SRC, TGT):
-                n += _pos_check(ctx, rid, f, node, f"slot: {norm(node)}", f"store into the slot named `{slot}`", [e], [roles.atom(node.value)], {})
+        if isinstance(node, ast.Assign):
+            pairs = []
+            for t in node.targets:
+                if isinstance(t, (ast.Tuple, ast.List)) and isinstance(node.value, (ast.Tuple, ast.List)) and len(t.elts) == len(node.value.elts):
+                    pairs += list(zip(t.elts, node.value.elts))          # a['source_idx'], a['target_idx'] = x, y
+                else:
+                    pairs.append((t, node.value))
+            for t, val in pairs:
+                slot = None
+                if isinstance(t, ast.Subscript) and isinstance(t.slice, ast.Constant) and isinstance(t.slice.value, str):
+                    slot = t.slice.value
+                elif isinstance(t, ast.Attribute):
+                    slot = t.attr
+                e = R.seed_of(slot)
+                if e in (SRC, TGT):
+                    text = norm(node) if len(pairs) == 1 else f"{norm(t)} = {norm(val)}"
+                    n += _pos_check(ctx, rid, f, node, f"slot: {text}", f"store into the slot named `{slot}`", [e], [roles.atom(val)], {})
         if isinstance(node, ast.Call) and isinstance(node.func, ast.Attribute) and node.func.attr in ("extend", "append") and len(node.args) == 1:
             recv = node.func.value
             if isinstance(recv, ast.Subscript) and isinstance(recv.slice, ast.Constant) and R.seed_of(recv.slice.value) in (SRC, TGT):
@@ -229,7 +278,9 @@ def _r1_function(ctx, rid, f):
             a0 = node.args[0]
             if node.func.attr == "append" and isinstance(a0, ast.Tuple) and len(a0.elts) >= 3:
                 got = [roles.atom(a0.elts[0]), roles.atom(a0.elts[1])]
-                n += _pos_check(ctx, rid, f, st, f"edge-tuple: {norm(node)}", f"edge tuple `{norm(a0)}` (source first, target second)", [SRC, TGT], got, {})
+                # not an edge: a weight is no endpoint / a record list consumed by unpacking in this very function
+                if WGT not in got and not _local_record_list(f, recv):
+                    n += _pos_check(ctx, rid, f, st, f"edge-tuple: {norm(node)}", f"edge tuple `{norm(a0)}` (source first, target second)", [SRC, TGT], got, {})
         if isinstance(node, ast.Dict):
             for k, v in zip(node.keys, node.values):
                 if isinstance(k, ast.Constant) and R.seed_of(k.value) in (SRC, TGT):
@@ -532,6 +583,50 @@ def _is_self_n(e, selfn):
     return is_attr_of(e, selfn, "n")
 
 
+def _value_alternatives(ctx, rid, f, name_node, depth=0):
+    """The expressions a local may hold, one per way it is computed: every reaching definition, both arms of a conditional
+    expression, and - when the definition calls a private helper of the class/module - every `return` of that helper.
+    Each alternative is a dict: fi (function holding the expression), stmt, value, lits (extra (test, polarity) literals from
+    conditional expressions), env (helper parameter -> argument expression in the caller, or None)."""
+    from engine.dataflow import assigned_value
+    out = []
+
+    def expand(fi, stmt, v, lits, env, d):
+        if isinstance(v, ast.IfExp):
+            for arm, pol in ((v.body, True), (v.orelse, False)):
+                extra = []
+                R.split_literals(v.test, pol, extra)
+                expand(fi, stmt, arm, lits + extra, env, d)
+            return
+        if isinstance(v, ast.Name) and d < 4:
+            defs = ctx.rd(fi).defs_reaching(v)
+            if defs and all(isinstance(x, (ast.Assign, ast.AnnAssign)) and assigned_value(x, v.id) is not None for x in defs):
+                for x in defs:
+                    expand(fi, x, assigned_value(x, v.id), lits, env, d + 1)
+                return
+        if isinstance(v, ast.Call) and d < 4:
+            g = R.private_helper(ctx, fi, v)
+            if g is not None:
+                binding = R.bind_args(v, g)
+                rets = [r for r in walk_shallow(g.node) if isinstance(r, ast.Return)]
+                if binding is None or not rets or any(r.value is None for r in rets):
+                    raise AnalysisError(f"{rid}: cannot follow the helper call `{norm(v)}` (unrecognised form)")
+                if env is not None:
+                    raise AnalysisError(f"{rid}: helper `{g.qualname}` called from a helper (nesting too deep to follow)")
+                for r in rets:
+                    expand(g, r, r.value, lits, {"binding": binding, "caller": fi, "call": v}, d + 1)
+                return
+        out.append(dict(fi=fi, stmt=stmt, value=v, lits=lits, env=env))
+
+    defs = ctx.rd(f).defs_reaching(name_node)
+    for x in defs:
+        v = assigned_value(x, name_node.id) if isinstance(x, (ast.Assign, ast.AnnAssign)) else None
+        if v is None:
+            raise AnalysisError(f"{rid}: unrecognised definition of `{name_node.id}`: {norm(x)}")
+        expand(f, x, v, [], None, depth)
+    return out
+
+
 def r3_population_params(ctx, rid):
     cls = ctx.repo.get_class(POP, "PopulationTemplate")
     f = get_method(ctx, cls, "apply")
@@ -545,14 +640,17 @@ def r3_population_params(ctx, rid):
     store = stores[0]
     vd = store.targets[0].value           # var_data
     newname = store.value.id
-    defs = ctx.rd(f).defs_reaching(store.value)
-    if len(defs) < 2:
+    alts = _value_alternatives(ctx, rid, f, store.value)
+    if len(alts) < 2:
         raise AnalysisError(f"{rid}: expected several definitions of `{newname}` (per-unit / replicated / default)")
 
-    def pval_info(name_node):
-        """`pval` -> (key expr, container) when pval = self.params[key]"""
-        v = single_def_value(ctx, f, name_node) if isinstance(name_node, ast.Name) else name_node
-        if isinstance(v, ast.Subscript) and is_attr_of(v.value, selfn, "params"):
+    def self_n(e, fi):
+        return is_attr_of(e, fi.self_name or selfn, "n")
+
+    def pval_info(name_node, fi):
+        """`pval` -> the subscript `self.params[key]` it was read from"""
+        v = single_def_value(ctx, fi, name_node) if isinstance(name_node, ast.Name) else name_node
+        if isinstance(v, ast.Subscript) and is_attr_of(v.value, fi.self_name or selfn, "params"):
             return v
         return None
 
@@ -564,20 +662,22 @@ def r3_population_params(ctx, rid):
                     return a.elts[0], b
         return None
 
+    # the loops around the expansion in apply (operator loop > variable loop)
+    loops = [a for a in _ancestors(store) if isinstance(a, ast.For)]
     n_seen = 0
-    for d in defs:
-        if not isinstance(d, ast.Assign):
-            raise AnalysisError(f"{rid}: unrecognised definition of `{newname}`: {norm(d)}")
-        v = d.value
+    for alt in alts:
+        fi, d, v, env = alt["fi"], alt["stmt"], alt["value"], alt["env"]
+        acfg = ctx.cfg(fi)
+        what = norm(d) if fi is f else f"{fi.qualname}: {norm(d)}"
         rep = replicated(v)
         if rep is not None:
             n_seen += 1
             x, cnt = rep
-            if _is_self_n(cnt, selfn):
-                ctx.ok(rid, f, d, f"`{norm(x)}` is replicated self.n times", label=f"replicate: {norm(d)}")
+            if self_n(cnt, fi):
+                ctx.ok(rid, fi, d, f"`{norm(x)}` is replicated self.n times", label=f"replicate: {norm(d)}")
             else:
-                ctx.violation(rid, f, d, f"`{norm(x)}` is replicated `{norm(cnt)}` times instead of self.n: the population variable would not have one "
-                                         f"entry per unit", label=f"replicate: {norm(d)}")
+                ctx.violation(rid, fi, d, f"`{norm(x)}` is replicated `{norm(cnt)}` times instead of self.n: the population variable would not have one "
+                                          f"entry per unit", label=f"replicate: {norm(d)}")
             continue
         # per-unit branch: list(pval) (or equivalent order-preserving copy)
         src = None
@@ -593,46 +693,59 @@ def r3_population_params(ctx, rid):
         elif isinstance(v, ast.List) and len(v.elts) == 1 and isinstance(v.elts[0], ast.Starred):
             src = v.elts[0].value
         n_seen += 1
-        if not isinstance(src, ast.Name) or pval_info(src) is None:
-            ctx.violation(rid, f, d, f"the per-unit branch builds the value as `{norm(v)}`, which is not the user's sequence taken element by element in "
-                                     f"order: unit i would not receive params[...][i]", label=f"per-unit: {norm(d)}")
+        if not isinstance(src, ast.Name) or pval_info(src, fi) is None:
+            ctx.violation(rid, fi, d, f"the per-unit branch builds the value as `{norm(v)}`, which is not the user's sequence taken element by element in "
+                                      f"order: unit i would not receive params[...][i]", label=f"per-unit: {norm(d)}")
             continue
-        # the guard
-        guards = [g for g in cfg.dominators(d) if isinstance(g, ast.If) and g is not d and any(contains(b, d) for b in g.body)]
+        # the guard: a length test of the sequence that holds on the way to this alternative (nested if, early return, `continue`,
+        # conditional expression, negated / De-Morgan'd spelling, swapped operands)
         lens = []
-        for g in guards:
-            tests = g.test.values if isinstance(g.test, ast.BoolOp) and isinstance(g.test.op, ast.And) else [g.test]
-            for t in tests:
-                if isinstance(t, ast.Compare) and len(t.ops) == 1:
-                    for a, b in ((t.left, t.comparators[0]), (t.comparators[0], t.left)):
-                        if isinstance(a, ast.Call) and call_name(a) == "len" and len(a.args) == 1 and isinstance(a.args[0], ast.Name) \
-                                and a.args[0].id == src.id:
-                            lens.append((g, t, b))
+        for t, pol in R.path_literals(acfg, d, v if any(x is v for x in ast.walk(d)) else None) + list(alt["lits"]):
+            if isinstance(t, ast.Compare) and len(t.ops) == 1:
+                for a, b in ((t.left, t.comparators[0]), (t.comparators[0], t.left)):
+                    if isinstance(a, ast.Call) and call_name(a) == "len" and len(a.args) == 1 and isinstance(a.args[0], ast.Name) \
+                            and a.args[0].id == src.id:
+                        lens.append((t, pol, b))
         if not lens:
-            raise AnalysisError(f"{rid}: the per-unit branch `{norm(d)}` is not guarded by a length test of `{src.id}` (unrecognised form)")
-        g, t, other = lens[0]
-        facts = {"guard": norm(g)}
-        if isinstance(t.ops[0], ast.Eq) and _is_self_n(other, selfn):
-            ctx.ok(rid, f, d, f"a parameter of length self.n is used element by element in order (`{norm(v)}`)", facts, label=f"per-unit: {norm(d)}")
+            raise AnalysisError(f"{rid}: the per-unit branch `{what}` is not guarded by a length test of `{src.id}` (unrecognised form)")
+        t, pol, other = lens[0]
+        facts = {"guard": ("" if pol else "not ") + norm(t)}
+        holds_eq = (isinstance(t.ops[0], ast.Eq) and pol) or (isinstance(t.ops[0], ast.NotEq) and not pol)
+        if holds_eq and self_n(other, fi):
+            ctx.ok(rid, fi, d, f"a parameter of length self.n is used element by element in order (`{norm(v)}`)", facts, label=f"per-unit: {norm(d)}")
         else:
-            ctx.violation(rid, f, d, f"the per-unit branch is taken when `{norm(t)}` instead of len({src.id}) == self.n: a sequence of another length "
-                                     f"would be taken as per-unit values (wrong population size) or a length-n sequence would be replicated", facts,
+            ctx.violation(rid, fi, d, f"the per-unit branch is taken when `{facts['guard']}` instead of len({src.id}) == self.n: a sequence of another "
+                                      f"length would be taken as per-unit values (wrong population size) or a length-n sequence would be replicated", facts,
                           label=f"per-unit: {norm(d)}")
-        # replicated sibling in the else branch must exist
         # parameter key names the variable being expanded
-        sub = pval_info(src)
+        sub = pval_info(src, fi)
         key = sub.slice
-        kv = single_def_value(ctx, f, key) if isinstance(key, ast.Name) else key
-        tpl = fstring_template(kv) if kv is not None else None
-        holes = fstring_holes(kv) if kv is not None else []
-        loops = [a for a in _ancestors(d) if isinstance(a, ast.For)]
-        loopvars = []
-        for l in reversed(loops):
-            loopvars.append(l.target)
+        kfi = fi
+        kv = key
+        for _ in range(4):
+            if not isinstance(kv, ast.Name):
+                break
+            kdefs = ctx.rd(kfi).defs_reaching(kv)
+            if env is not None and kfi is fi and kv.id in env["binding"] and kdefs and all(isinstance(x, ast.arguments) for x in kdefs):
+                kv, kfi = env["binding"][kv.id], env["caller"]       # a helper parameter: continue with the caller's argument
+                continue
+            nxt = single_def_value(ctx, kfi, kv)
+            if nxt is None:
+                break
+            kv = nxt
+        tpl = fstring_template(kv) if not isinstance(kv, ast.Name) else None
+        holes = fstring_holes(kv) if tpl is not None else []
+        if tpl is None and isinstance(kv, ast.Call) and call_name(kv) == "join" and isinstance(kv.func, ast.Attribute) \
+                and isinstance(kv.func.value, ast.Constant) and kv.func.value.value == "/" and len(kv.args) == 1 \
+                and isinstance(kv.args[0], (ast.Tuple, ast.List)):
+            holes = list(kv.args[0].elts)                              # "/".join((op, var))
+            tpl = "/".join("⟨%s⟩" % ast.unparse(h) for h in holes)
         ok_key = False
-        if tpl is not None and re.fullmatch(r"⟨[^⟩]*⟩/⟨[^⟩]*⟩", tpl) and len(holes) == 2 and len(loops) == 2:
+        if tpl is not None and re.fullmatch(r"⟨[^⟩]*⟩/⟨[^⟩]*⟩", tpl) and len(holes) == 2 and len(loops) == 2 and kfi is f:
             outer, inner = loops[-1], loops[0]
             op_name = outer.target.id if isinstance(outer.target, ast.Name) else None
+            if op_name is None and isinstance(outer.target, ast.Tuple) and outer.target.elts and isinstance(outer.target.elts[0], ast.Name):
+                op_name = outer.target.elts[0].id                      # for op_key, op_data in ....items()
             var_name = inner.target.elts[0].id if isinstance(inner.target, ast.Tuple) and isinstance(inner.target.elts[0], ast.Name) else None
             ok_key = isinstance(holes[0], ast.Name) and holes[0].id == op_name and isinstance(holes[1], ast.Name) and holes[1].id == var_name
             # and var_data is the inner loop's value, taken from the op named by the outer loop
@@ -641,21 +754,21 @@ def r3_population_params(ctx, rid):
         else:
             # an inexact key match (suffix / prefix / substring / regex search over the keys) lets a parameter meant for one
             # operator's variable land on a same-named variable of another operator
-            inexact = [c for c in ast.walk(kv if kv is not None else key) if isinstance(c, ast.Call) and call_name(c) in
+            inexact = [c for c in ast.walk(kv) if isinstance(c, ast.Call) and call_name(c) in
                        ("endswith", "startswith", "find", "search", "match", "fnmatch", "rfind")]
-            inexact += [c for c in ast.walk(kv if kv is not None else key) if isinstance(c, ast.Compare) and isinstance(c.ops[0], (ast.In, ast.NotIn))
+            inexact += [c for c in ast.walk(kv) if isinstance(c, ast.Compare) and isinstance(c.ops[0], (ast.In, ast.NotIn))
                         and isinstance(c.left, ast.Name) and isinstance(c.comparators[0], ast.Name)]
             if inexact:
-                ctx.violation(rid, f, sub, f"the per-unit parameter is looked up by an inexact key match (`{norm(inexact[0])}`) instead of the exact key "
-                                           f"'<op>/<var>' of the variable being expanded: a value given for `slow_rate_op/tau` would also be "
-                                           f"applied to `rate_op/tau`", label=f"param key: {norm(sub)}")
+                ctx.violation(rid, fi, sub, f"the per-unit parameter is looked up by an inexact key match (`{norm(inexact[0])}`) instead of the exact key "
+                                            f"'<op>/<var>' of the variable being expanded: a value given for `slow_rate_op/tau` would also be "
+                                            f"applied to `rate_op/tau`", label=f"param key: {norm(sub)}")
                 continue
-            raise AnalysisError(f"{rid}: parameter key `{norm(kv) if kv is not None else norm(key)}` has an unrecognised form")
+            raise AnalysisError(f"{rid}: parameter key `{norm(kv)}` has an unrecognised form")
         if ok_key:
-            ctx.ok(rid, f, sub, "the parameter is looked up under '<op>/<var>' of the variable being expanded", label=f"param key: {norm(sub)}")
+            ctx.ok(rid, fi, sub, "the parameter is looked up under '<op>/<var>' of the variable being expanded", label=f"param key: {norm(sub)}")
         else:
-            ctx.violation(rid, f, sub, f"the parameter key `{tpl}` is not built from the operator and variable whose value is being replaced: "
-                                       f"per-unit values would land on another variable", label=f"param key: {norm(sub)}")
+            ctx.violation(rid, fi, sub, f"the parameter key `{tpl}` is not built from the operator and variable whose value is being replaced: "
+                                        f"per-unit values would land on another variable", label=f"param key: {norm(sub)}")
     if n_seen < 3:
         raise AnalysisError(f"{rid}: expected per-unit, replicated and default definitions of `{newname}`")
     # shape and node length follow n
@@ -792,6 +905,40 @@ def r4_collision_and_forwarding(ctx, rid):
             passed[pnames[i]] = x
     for k in call.keywords:
         passed[k.arg] = k.value
+    cfg = ctx.cfg(upd)
+    rd = ctx.rd(upd)
+    call_st = stmt_of(cfg, call)
+
+    def reads_self(e):
+        return any(is_attr_of(x, selfn) for x in ast.walk(e))
+
+    def is_blank(e):
+        return isinstance(e, ast.Constant) or (isinstance(e, (ast.Dict, ast.List, ast.Tuple)) and not ast.dump(e).count("Constant")
+                                               and not any(isinstance(x, (ast.Name, ast.Attribute)) for x in ast.walk(e)))
+
+    def sources(e, depth=0):
+        """The expressions the forwarded value may be on reaching the constructor call: single names are followed through all their
+        reaching definitions (`new_x = update(self.x, x) if x else self.x`, `x = x or self.x`, if/else re-binding of the argument)."""
+        if isinstance(e, ast.Name) and depth < 4:
+            defs = rd.defs_reaching(e) if depth == 0 else rd.defs_reaching_at(call_st, e.id)
+            out = []
+            for d in defs:
+                if isinstance(d, ast.arguments):
+                    out.append(("param", e.id))
+                    continue
+                v = None
+                if isinstance(d, (ast.Assign, ast.AnnAssign)):
+                    from engine.dataflow import assigned_value
+                    v = assigned_value(d, e.id)
+                if v is None:
+                    raise AnalysisError(f"{rid}: unrecognised definition `{norm(d)}` of `{e.id}` in update_template")
+                if isinstance(v, ast.Name) and v.id != e.id:
+                    out += sources(v, depth + 1)
+                else:
+                    out.append(("expr", v))
+            return out
+        return [("expr", e)]
+
     for p in pnames:
         label = f"forward {p}"
         if p not in passed:
@@ -799,27 +946,30 @@ def r4_collision_and_forwarding(ctx, rid):
                                           f"(a population circuit compiles to single nodes without its connectivity)", {"forwarded": sorted(passed)}, label=label)
             continue
         v = passed[p]
-        if (isinstance(v, ast.Name) and v.id == p) or is_attr_of(v, selfn, p):
-            ctx.ok(rid, upd, call, f"`{p}` is forwarded ({norm(v)})", label=label, nontrivial=False)
-        elif isinstance(v, ast.Constant) or (isinstance(v, (ast.Dict, ast.List)) and not ast.dump(v).count("Constant")):
+        if is_blank(v):
             ctx.violation(rid, upd, call, f"`{p}` is passed the constant `{norm(v)}`: the derived template loses the base template's {p}", label=label)
-        else:
-            raise AnalysisError(f"{rid}: `{p}={norm(v)}` in update_template is neither the updated local nor self.{p} (unrecognised form)")
-    # the locals handed over derive from self.<p> when no update was given
-    cfg = ctx.cfg(upd)
-    rd = ctx.rd(upd)
-    for p in pnames:
-        v = passed.get(p)
-        if not (isinstance(v, ast.Name) and v.id == p and p in upd.params):
             continue
-        defs = rd.defs_reaching(v)
-        vals = []
-        for d in defs:
-            if isinstance(d, ast.arguments):
-                vals.append("param")
-            elif isinstance(d, ast.Assign):
-                vals.append(norm(d.value))
-        falls_back = any(isinstance(d, ast.Assign) and any(is_attr_of(x, selfn) for x in ast.walk(d.value)) for d in defs)
+        if is_attr_of(v, selfn, p):
+            ctx.ok(rid, upd, call, f"`{p}` is forwarded ({norm(v)})", label=label, nontrivial=False)
+            continue
+        srcs = sources(v)
+        vals = ["param" if k == "param" else norm(x) for k, x in srcs]
+        exprs = [x for k, x in srcs if k == "expr"]
+        from_param = any(k == "param" and x == p for k, x in srcs) or any(isinstance(n, ast.Name) and n.id == p and p in upd.params
+                                                                         for x in exprs for n in ast.walk(x))
+        falls_back = any(reads_self(x) for x in exprs)
+        if not from_param and not falls_back:
+            if exprs and all(is_blank(x) for x in exprs):
+                ctx.violation(rid, upd, call, f"`{p}` is passed `{norm(v)}`, which is always the constant {vals}: the derived template loses the base "
+                                              f"template's {p}", {"definitions": vals}, label=label)
+                continue
+            raise AnalysisError(f"{rid}: `{p}={norm(v)}` in update_template is neither the updated local nor self.{p} (unrecognised form)")
+        ctx.ok(rid, upd, call, f"`{p}` is forwarded ({norm(v)})", {"definitions": vals}, label=label, nontrivial=False)
+        # the value handed over derives from self.<p> when no update was given
+        if not isinstance(v, ast.Name):
+            if not falls_back:
+                raise AnalysisError(f"{rid}: `{p}={norm(v)}` in update_template does not read the base template (unrecognised form)")
+            continue
         if falls_back:
             ctx.ok(rid, upd, call, f"`{p}` falls back to the base template's value when no update is given", {"definitions": vals},
                    label=f"fallback {p}", nontrivial=False)
